@@ -46,8 +46,8 @@ def rules(ctx, prog, rid=None):
                 locs[f.tu.decls[d]['n']] = (d, f.node(init) if init >= 0 else None)
     # the locals are identified by their ROLE, not by their names: ii = induction variable of the two loops, eeii = bound of the word loop,
     # elen = bound of the byte (tail) loop, OVERFLOW_MASK = the constant the carry extraction masks with
-    fors0 = [n for n in f.all_nodes() if n.k == 'ForStmt']
-    ctx.need(len(fors0) == 2, 'calc_chksum: expected word loop + tail loop (two for statements)')
+    fors0 = [n for n in f.all_nodes() if n.k in ('ForStmt', 'WhileStmt')]
+    ctx.need(len(fors0) == 2, 'calc_chksum: expected word loop + tail loop (two for/while statements)')
     def cond_pair(loop):
         c_ = loop.child('cond').strip(casts=True) if loop.child('cond') is not None else None
         if c_ is None or c_.k != 'BinaryOperator' or c_.op != '<':
@@ -78,7 +78,9 @@ def rules(ctx, prog, rid=None):
     ok, why = False, 'effective length is not `len != -1 ? len : …`'
     if len(co) == 1:
         c_, t_, e_ = co[0].child('cond').strip(casts=True), co[0].child('then'), co[0].child('else')
-        condok = c_.k == 'BinaryOperator' and c_.op == '!=' and q.refers_to_decl(c_.children[0], plen) and c_.children[1].strip(casts=True).value == -1
+        condok = c_.k == 'BinaryOperator' and c_.op in ('!=', '==') and q.refers_to_decl(c_.children[0], plen) and c_.children[1].strip(casts=True).value == -1
+        if condok and c_.op == '==':
+            t_, e_ = e_, t_          # `len == -1 ? remainder : len` is the same selection
         lf = q.linear(e_, sym=lambda x: 'SZ' if q.refers_to_decl(x, psz) else 'OFF' if q.refers_to_decl(x, poff) else x.text())
         if condok and q.refers_to_decl(t_, plen):
             if lf.t == {'SZ': 1, 'OFF': -1} and lf.c == 0:
@@ -88,13 +90,27 @@ def rules(ctx, prog, rid=None):
                        '(reads %s byte(s) past the end and sums them)' % (lf, 'offset'))
     ctx.check(ok, R('R07.1'), M + 'calc_chksum#remainder-length', e.loc, 'effective length = len, or sz - offset when no length is given', why)
     # word loop
-    fors = [n for n in f.all_nodes() if n.k == 'ForStmt']
-    ctx.need(len(fors) == 2, 'calc_chksum: expected word loop + tail loop')
-    wl, tl = fors
+    wl, tl = fors0
     iid = locs['ii'][0]
-    inc = wl.child('inc').strip(casts=True)
+
+    def steps(loop):
+        # the stores to the induction variable inside a loop (its increment expression or its body): [(node, amount or None)]
+        out_ = []
+        for (n_, kind_, val_) in q.local_defs(f, iid):
+            if kind_ == 'init' or not any(a_ == loop for a_ in n_.ancestors()):
+                continue
+            if kind_ == 'incdec':
+                out_.append((n_, 1 if n_.op == '++' or n_.r.get('op') == '++' else None))
+            elif kind_ == 'opassign' and n_.op == '+=':
+                out_.append((n_, val_.strip(casts=True).value))
+            else:
+                out_.append((n_, None))
+        return out_
     cond = wl.child('cond').strip(casts=True)
-    S = inc.children[1].strip(casts=True).value if inc.k == 'CompoundAssignOperator' and inc.op == '+=' and q.refers_to_decl(inc.children[0], iid) else None
+    ws = steps(wl)
+    S = ws[0][1] if len(ws) == 1 else None
+    ts = steps(tl)
+    others = [n_ for (n_, kind_, val_) in q.local_defs(f, iid) if kind_ != 'init' and n_ not in [x_[0] for x_ in ws + ts]]
     loads = [x for x in wl.child('body').walk() if x.k == 'UnaryOperator' and x.op == '*' and x.children[0].strip().k == 'CXXReinterpretCastExpr']
     ctx.need(len(loads) == 1 and S is not None, 'calc_chksum: word load / stride not recognised')
     wt = loads[0].type
@@ -129,11 +145,13 @@ def rules(ctx, prog, rid=None):
               q.refers_to_decl(cond.children[1], locs['eeii'][0]), R('R07.2'), M + 'calc_chksum#word-bound', ee.loc,
               'word loop runs while ii < elen - elen %% %s (a multiple of the word size)' % K)
     tc = tl.child('cond').strip(casts=True)
-    tinc = tl.child('inc')
-    tail_reads = [x for x in tinc.walk() if x.k == 'ArraySubscriptExpr' and q.refers_to_decl(x.children[0], pfrom)] if tinc is not None else []
+    tail_reads = [x for part in (tl.child('inc'), tl.child('body')) if part is not None for x in part.walk()
+                  if x.k == 'ArraySubscriptExpr' and q.refers_to_decl(x.children[0], pfrom)]
     ctx.check(tc.k == 'BinaryOperator' and tc.op == '<' and q.refers_to_decl(tc.children[0], iid) and q.refers_to_decl(tc.children[1], locs['elen'][0]) and
-              len(tail_reads) == 1 and any(q.refers_to_decl(x, iid) for x in tail_reads[0].children[1].walk() if x.k == 'DeclRefExpr') and tl.child('init') is None,
-              R('R07.2'), M + 'calc_chksum#tail', tl.loc, 'the byte loop continues with the same index up to elen, reading from[ii]')
+              len(tail_reads) == 1 and q.refers_to_decl(tail_reads[0].children[1].strip(casts=True).children[0] if tail_reads[0].children[1].strip(casts=True).k == 'UnaryOperator'
+                                                        else tail_reads[0].children[1], iid) and
+              len(ts) == 1 and ts[0][1] == 1 and not others and (tl.k != 'ForStmt' or tl.child('init') is None),
+              R('R07.2'), M + 'calc_chksum#tail', tl.loc, 'the byte loop continues with the same index up to elen, reading from[ii] and advancing by one')
     # carries
     fl = q.branches(f, lambda a: any(x.k == 'BinaryOperator' and x.op in ('%', '&') and q.refers_to_decl(x.children[0], iid) for x in a.walk()))
     P = None
